@@ -403,7 +403,7 @@ Proof.
   pose proof (wf_case_prior _ _ _ _ _ _ _ W) as PO.
   cbn [run_case] in R. apply res_eqb_spec in R. unfold scan_block_truth in R.
   cbn [prop_case]. rewrite andb_true_r. unfold check_scan.
-  destruct (scan_correct dec_truth nf_truth c prior keys nfs b PO) as [OKC ERRC].
+  destruct (scan_correct (dec_truth c (b_height b)) nf_truth c prior keys nfs b PO) as [OKC ERRC].
   destruct o as [r|e|].
   - apply OKC in R. destruct R as [AC ->]. rewrite AC. cbn [andb]. apply scanned_eqb_spec. reflexivity.
   - rewrite (ERRC e R). reflexivity.
